@@ -28,6 +28,7 @@ def to_real_cmd(c):
 def run_case(job):
     """job: {n: ncollected, reports: [[int..]..], stops: [..], coll: [[k,f]..], ops: [...], trace: bool}"""
     sched = Sched()
+    sched.fine = bool(job.get("fine"))
     n = job["n"]
     ids = ["t#%d" % i for i in range(n)]
     oracle = {"reports": {i: [OUTCOMES[x] for x in r] for i, r in enumerate(job["reports"])},
@@ -47,11 +48,27 @@ def run_case(job):
             if op == "r":
                 w.recv_step()
             elif op == "m":
-                w.main_step()
+                if job.get("fine"):
+                    w.main_micro()
+                else:
+                    w.main_step()
             else:
                 w.deliver(to_real_cmd(op[1]))
             if job.get("trace"):
                 trace.append(obs())
+        if job.get("fine"):
+            # fair drain: both threads get every chance; then: is the worker asleep although it has something to do?
+            for _ in range(40 * (job["n"] + 4)):
+                a = w.recv.runnable() and not w.dead
+                if a:
+                    w.recv_step()
+                b = w.main_micro()
+                if not a and not b:
+                    break
+            fin = obs()
+            asleep = (not w.exited) and (not w.dead) and not w.main.runnable() and not w.recv.runnable()
+            trace.append(fin)
+            trace.append({"asleep": int(asleep), "queue": fin[0], "flag": fin[1]})
         result = trace if job.get("trace") else obs()
     except BaseException as e:  # noqa: BLE001
         import traceback
